@@ -87,8 +87,71 @@ func checkTerm(c *Ctx, rule, key, pos, what string, got *flow.Term, wants ...*fl
 		c.Run.Unknown(rule, key, pos, want, short(got.String()))
 		return false
 	}
+	// A verdict needs a recognised shape: a simple value (input, constant, one primitive applied to
+	// inputs) or the expected construction with a different leaf/callee. A differently built complex
+	// value may be an equivalent rewrite: Undecided.
+	recognised := termDepth(got) <= 2
+	for _, w := range wants {
+		if sameShape(got, w) {
+			recognised = true
+		}
+	}
+	if !recognised {
+		c.Run.Unknown(rule, key, pos, want, "built differently (not a recognised shape): "+short(got.String()))
+		return false
+	}
 	c.Run.Bad(rule, key, pos, want, short(got.String()))
 	return false
+}
+
+func isLeafTerm(t *flow.Term) bool {
+	switch t.Op {
+	case "param", "field", "const", "zero", "global", "func":
+		return true
+	}
+	return false
+}
+
+// skin strips nodes that do not change the construction: conversions, unary operators, tuple extraction.
+func skin(t *flow.Term) *flow.Term {
+	for (t.Op == "conv" || t.Op == "un" || t.Op == "extract" || t.Op == "addr" || t.Op == "deref") && len(t.Args) == 1 {
+		t = t.Args[0]
+	}
+	return t
+}
+
+func termDepth(t *flow.Term) int {
+	t = skin(t)
+	if isLeafTerm(t) {
+		return 0
+	}
+	d := 0
+	for _, a := range t.Args {
+		if x := termDepth(a); x > d {
+			d = x
+		}
+	}
+	return d + 1
+}
+
+// sameShape: same construction up to leaves (inputs, constants) and callee names.
+func sameShape(a, b *flow.Term) bool {
+	a, b = skin(a), skin(b)
+	if isLeafTerm(a) || isLeafTerm(b) {
+		return isLeafTerm(a) && isLeafTerm(b)
+	}
+	if a.Op != b.Op || len(a.Args) != len(b.Args) {
+		return false
+	}
+	if a.Op == "fld" && a.Val != b.Val {
+		return false
+	}
+	for i := range a.Args {
+		if !sameShape(a.Args[i], b.Args[i]) {
+			return false
+		}
+	}
+	return true
 }
 
 // isPlumbing: atoms that only say "the previous step succeeded": error-result nil tests on call results and
